@@ -139,6 +139,7 @@ func init() {
 			complete := true
 			eval := func(c c04Case, nontrivial bool) {
 				r.Evals.Add(1)
+				r.Journal(c)
 				r.Transitions.Add(int64(len(c.Ns)))
 				r.Traces.Add(int64(len(c.Locs)))
 				ok, sig, detail := c04Eval(c)
